@@ -37,8 +37,12 @@ RULES = {
     "(`alignment=alignment`, `align_threshold=align_threshold`) is forwarded by every site - a shard written by the pool without the "
     "caller's `align_threshold` is laid out with the default, so its file and the recorded offsets differ from the serial save "
     "(one reviewed exemption: the byte limit may travel as a shared budget object built from it)",
+    "R11": "the budget is kept in bytes (shared rule S19): in the external-data module no byte quantity (a recorded length or offset, `.nbytes`, "
+    "the budget, a *_SIZE constant) meets an element count (`.size`, math.prod of a shape) as operands of min / max / + / - / a comparison "
+    "without a product with the item size on the way - `min(tensor_length, tensor.size)` reserves a quarter of a float32 tensor's bytes, "
+    "so the writers hold several times the configured budget in materialised tensors",
 }
-FLOORS = {"R1": 6, "R2": 3, "R3": 1, "R4": 2, "R5": 3, "R6": 1, "R7": 2, "R8": 4, "R9": 2, "R10": 6}
+FLOORS = {"R1": 6, "R2": 3, "R3": 1, "R4": 2, "R5": 3, "R6": 1, "R7": 2, "R8": 4, "R9": 2, "R10": 6, "R11": 10}
 EXPLANATION = (
     "Lock-set analysis over the external-data writer: which fields are touched under which `with`, pairing of "
     "acquire/release through try/finally, lock context of every call path from submitted functions to tensor "
@@ -693,7 +697,30 @@ def rule_r10(ctx):
     ctx.require(n >= 6, f"only {n} forwarded options at sibling call sites found in the external-data writer")
 
 
+def rule_r11(ctx):
+    from ..shared import unit_mismatches
+
+    n = 0
+    for f in ctx.repo.live(ctx.repo.module("onnx_ir.external_data").all_funcs):
+        if isinstance(f.node, ast.Lambda):
+            continue
+        hits = unit_mismatches(f)
+        n += f._s19_examined
+        for node, b, e in hits:
+            ctx.check("R11", f"{f.local}: `{norm(node)[:60]}` combines quantities of one unit", False, f, node,
+                      f"`{norm(b)}` counts bytes and `{norm(e)}` counts elements, and `{norm(node)[:70]}` combines them as they are: for every element type wider "
+                      "than one byte the result is too small, so the byte budget admits several times the configured amount of materialised tensor data "
+                      "(and tensors larger than the budget are no longer serialised through the single oversized slot)",
+                      how="S19: unit of each operand of min / max / + / - / comparisons (bytes: .nbytes, lengths, offsets, budgets, *_SIZE; elements: .size, math.prod)",
+                      construct=f"bytes combined with an element count in {f.local}")
+    for _ in range(n):
+        ctx.counts["R11"] = ctx.counts.get("R11", 0) + 1
+    ctx.ob("R11", f"{n} expressions with a byte or element quantity examined in the external-data module", True, nontrivial=False, how="S19")
+    ctx.require(n >= 10, f"only {n} expressions with a unit found in the external-data module")
+
+
 def run(ctx):
+    rule_r11(ctx)
     rule_r10(ctx)
     rule_r9(ctx)
     rule_r8(ctx)
